@@ -389,6 +389,16 @@ func (c *Ctx) watchdog(limit time.Duration) {
 			if s != 0 && time.Since(time.Unix(0, s)) > limit {
 				buf := make([]byte, 1<<20)
 				n := runtime.Stack(buf, true)
+				d1 := goshGoroutines(string(buf[:n]))
+				time.Sleep(time.Second)
+				buf2 := make([]byte, 1<<20)
+				n2 := runtime.Stack(buf2, true)
+				d2 := goshGoroutines(string(buf2[:n2]))
+				if c.start.Load() == s && d1 != "" && d1 == d2 && !strings.Contains(d1, "[run") && !strings.Contains(d1, "[sleep") {
+					// the same go.sh goroutines, all blocked, in two dumps a second apart, long after
+					// the case started: nothing can wake them any more
+					fmt.Fprintf(os.Stderr, "WATCHDOG-DEADLOCK: case %d: every go.sh goroutine is blocked: %s\n", c.idx-1, d1)
+				}
 				fmt.Fprintf(os.Stderr, "WATCHDOG: case %d exceeded %v\n%s\n", c.idx-1, limit, buf[:n])
 				os.Exit(3)
 			}
@@ -531,4 +541,33 @@ func (c *Ctx) ScratchDir(tag string) string {
 		panic(err)
 	}
 	return d
+}
+
+// goshGoroutines summarises the goroutines of a stack dump that are inside
+// go.sh code: "id[state]@function" sorted by appearance.
+func goshGoroutines(dump string) string {
+	var out []string
+	for _, g := range strings.Split(dump, "\n\n") {
+		if !strings.Contains(g, "github.com/hattya/go.sh/") {
+			continue
+		}
+		lines := strings.Split(g, "\n")
+		hdr := lines[0]
+		// "goroutine 12 [chan receive, 2 minutes]:" -> drop the duration
+		if i := strings.IndexByte(hdr, ','); i > 0 {
+			hdr = hdr[:i] + "]"
+		}
+		fn := ""
+		for _, l := range lines[1:] {
+			if strings.HasPrefix(l, "github.com/hattya/go.sh/") {
+				fn = l
+				if j := strings.IndexByte(fn, '('); j > 0 {
+					fn = fn[:j]
+				}
+				break
+			}
+		}
+		out = append(out, hdr+"@"+fn)
+	}
+	return strings.Join(out, " ; ")
 }
